@@ -107,6 +107,7 @@ static void
 normalize(lzma_mf *mf)
 {
 	assert(mf->read_pos + mf->offset == MUST_NORMALIZE_POS);
+	VERIF_VISIT(VERIF_D_LZ_ENC, VERIF_LZE_NORMALIZE);
 
 	// In future we may not want to touch the lowest bits, because there
 	// may be match finders that use larger resolution than one byte.
@@ -179,6 +180,7 @@ move_pending(lzma_mf *mf)
 	++mf->read_pos;
 	assert(mf->read_pos <= mf->write_pos);
 	++mf->pending;
+	VERIF_VISIT(VERIF_D_LZ_ENC, VERIF_LZE_MOVE_PENDING);
 }
 
 
